@@ -5,6 +5,7 @@
 //           "fld <fnum>"           -> "hit <name-hex>" | "miss"           (F8MetaCntx::find_be / field table _find)
 //           "msg <hex>"            -> "hit <name-hex>" | "miss"           (message table)
 //           "trait <msghex> <tag>" -> "has=<0|1> pos=<n>"                 (per-message FieldTraits lookup)
+#include <memory>
 #include "hcommon.hpp"
 #include <fix8/f8includes.hpp>
 #include "utest_types.hpp"
@@ -96,6 +97,23 @@ int main(int argc, char **argv)
 			if (use_presence) { const FieldTrait ft(static_cast<unsigned short>(k), FieldTrait::ft_int, 1); const bool r(ps->insert(&ft).second); os << (r ? 1 : 0) << " sz=" << ps->size() << " rsz=" << ps->rsize(); }
 			else { const Item it(k); const bool r(gs->insert(&it).second); os << (r ? 1 : 0) << " sz=" << gs->size() << " rsz=" << gs->rsize(); }
 		}
+		else if (w.size() >= 2 && w[0] == "insr")		// range insert (FieldTraits::add(begin, cnt) / presorted_set::insert(begin, end)): stops at the first refused element
+		{
+			if (use_presence)
+			{
+				std::vector<FieldTrait> v;
+				for (size_t i(1); i < w.size(); ++i) v.push_back(FieldTrait(static_cast<unsigned short>(std::stol(w[i])), FieldTrait::ft_int, 1));
+				ps->insert(v.data(), v.data() + v.size());
+				os << "sz=" << ps->size() << " rsz=" << ps->rsize();
+			}
+			else
+			{
+				std::vector<Item> v;
+				for (size_t i(1); i < w.size(); ++i) v.push_back(Item(std::stol(w[i])));
+				gs->insert(v.data(), v.data() + v.size());
+				os << "sz=" << gs->size() << " rsz=" << gs->rsize();
+			}
+		}
 		else if (w.size() == 2 && w[0] == "fnd")
 		{
 			const long k(std::stol(w[1]));
@@ -137,6 +155,42 @@ int main(int argc, char **argv)
 				: FieldTrait::is_char(r->_ftype) ? r->is_valid<char>(txt[0]) : r->is_valid<f8String>(txt));
 			os << "idx=" << idx << " valid=" << (valid ? 1 : 0) << " desc=" << (idx >= 0 ? hex(cstr(be->_rlm->_descriptions[idx])) : "-");
 			delete f;
+		}
+		else if (w.size() == 5 && w[0] == "asg")
+		{
+			// a field object that has already been looked up with value 1 receives value 2 (mode 0: operator= from another field, 1: the same
+			// and the lookup is made on a copy(), 2: set()); the answer must be that of a fresh lookup of value 2
+			const unsigned fnum(std::stoul(w[1]));
+			std::string t1, t2; unhex(w[2], t1); unhex(w[3], t2);
+			const int mode(std::stoi(w[4]));
+			const BaseEntry *be(c.find_be(fnum));
+			if (!be || !be->_rlm) { out("no-realm"); continue; }
+			const RealmBase *r(be->_rlm);
+			std::unique_ptr<BaseField> f1(be->_create._do(t1.c_str(), be->_rlm, -1)), f2(be->_create._do(t2.c_str(), be->_rlm, -1));
+			const int first(f1->get_rlm_idx());
+			(void)first;
+			{ std::ostringstream sink; f1->print(sink); }
+			// same layout for every tag (the library's own assumption, cf. has_group_count): assign through the tag-0 instance of the type
+			if (FieldTrait::is_int(r->_ftype))
+			{
+				if (mode == 2) static_cast<Field<int, 0> *>(f1.get())->set(static_cast<Field<int, 0> *>(f2.get())->get());
+				else *static_cast<Field<int, 0> *>(f1.get()) = *static_cast<Field<int, 0> *>(f2.get());
+			}
+			else if (FieldTrait::is_char(r->_ftype))
+			{
+				if (mode == 2) static_cast<Field<char, 0> *>(f1.get())->set(static_cast<Field<char, 0> *>(f2.get())->get());
+				else *static_cast<Field<char, 0> *>(f1.get()) = *static_cast<Field<char, 0> *>(f2.get());
+			}
+			else
+			{
+				if (mode == 2) static_cast<Field<f8String, 0> *>(f1.get())->set(static_cast<Field<f8String, 0> *>(f2.get())->get());
+				else *static_cast<Field<f8String, 0> *>(f1.get()) = *static_cast<Field<f8String, 0> *>(f2.get());
+			}
+			std::unique_ptr<BaseField> cp(mode == 1 ? f1->copy() : nullptr);
+			const int idx(mode == 1 ? cp->get_rlm_idx() : f1->get_rlm_idx());
+			const bool valid(FieldTrait::is_int(r->_ftype) ? r->is_valid<int>(fast_atoi<int>(t2.c_str()))
+				: FieldTrait::is_char(r->_ftype) ? r->is_valid<char>(t2[0]) : r->is_valid<f8String>(t2));
+			os << "idx=" << idx << " valid=" << (valid ? 1 : 0) << " desc=" << (idx >= 0 ? hex(cstr(be->_rlm->_descriptions[idx])) : "-");
 		}
 		else if (w.size() == 4 && w[0] == "rng")
 		{
